@@ -1,6 +1,7 @@
 package main
 
 import (
+	"bytes"
 	"fmt"
 	"sort"
 
@@ -42,12 +43,20 @@ func injections(hist string) map[string][]byte {
 	hd := func(t byte) ref.Header { return ref.Header{Timestamp: 1600000005, Type: t, ServerID: c.ServerID} }
 	valid := c.Event(hd(ref.EvXID), ref.BodyXID(9), 1000, false)
 	trunc := append([]byte{}, valid[:len(valid)-3]...)
+	// a TABLE_MAP of the history's table (same table id) whose column-metadata
+	// length does not match its column types: the header is valid, the decoder
+	// rejects the body
+	tm := c.BodyTableMap(*e1.T1(108))
+	if k := bytes.Index(tm, []byte{byte(ref.TLong), byte(ref.TVarchar), byte(ref.TTiny)}); k > 0 {
+		tm[k+3]-- // the length byte of the metadata block
+	}
 	return map[string][]byte{
-		"rowsquery": c.Event(hd(ref.EvRowsQuery), ref.BodyRowsQuery("insert into t1 values (1)"), 1000, false),
-		"intvar":    c.Event(hd(ref.EvIntVar), ref.BodyIntVar(2, 77), 1000, false),
-		"rand":      c.Event(hd(ref.EvRand), ref.BodyRand(1, 2), 1000, false),
-		"truncated": trunc,
-		"tiny":      {1, 2, 3},
+		"badtablemap": c.Event(hd(ref.EvTableMap), tm, 1000, false),
+		"rowsquery":   c.Event(hd(ref.EvRowsQuery), ref.BodyRowsQuery("insert into t1 values (1)"), 1000, false),
+		"intvar":      c.Event(hd(ref.EvIntVar), ref.BodyIntVar(2, 77), 1000, false),
+		"rand":        c.Event(hd(ref.EvRand), ref.BodyRand(1, 2), 1000, false),
+		"truncated":   trunc,
+		"tiny":        {1, 2, 3},
 	}
 }
 
@@ -156,14 +165,21 @@ func stopScenarios(hist string, full bool) []e1.Scenario {
 			sc.Attempts = []e1.Attempt{att(simmaster.Plan{At: -1, Final: "silent"})}
 			out = append(out, sc)
 		}
-		for _, name := range []string{"rowsquery", "intvar", "rand", "truncated", "tiny"} {
+		for _, name := range []string{"rowsquery", "intvar", "rand", "truncated", "tiny", "badtablemap"} {
 			for at := 2; at < n; at++ {
-				if !full && name != "rowsquery" && at%4 != 2 {
+				if !full && name != "rowsquery" && name != "badtablemap" && at%4 != 2 {
 					continue
 				}
 				sc := base(fmt.Sprintf("%s/%s/inject-%s@%d", hist, pacing, name, at), hist, pacing)
 				sc.Attempts = []e1.Attempt{att(simmaster.Plan{At: at, Kind: "inject", Inject: inj[name], Final: "silent"})}
 				out = append(out, sc)
+				if name == "badtablemap" {
+					// ... and with the master ending the stream cleanly afterwards: an
+					// event the parser silently skipped must not turn into a clean end
+					sc := base(fmt.Sprintf("%s/%s/inject-%s@%d/eof", hist, pacing, name, at), hist, pacing)
+					sc.Attempts = []e1.Attempt{att(simmaster.Plan{At: at, Kind: "inject", Inject: inj[name], Final: "eof"})}
+					out = append(out, sc)
+				}
 			}
 		}
 		// (d) failures before a connection / a stream exists
@@ -179,6 +195,78 @@ func stopScenarios(hist string, full bool) []e1.Scenario {
 			sc.Attempts = []e1.Attempt{a}
 			out = append(out, sc)
 		}
+		// (e) cancellation while the connection is being set up
+		out = append(out, setupCancelScenarios(hist, pacing, false)...)
+		// (f) the same Streamer used again: an attempt ended by the caller's
+		// cancellation (or cleanly), then one that the master ends with an error, a
+		// lost connection or EOF: what the second attempt reports must not depend
+		// on how the first one ended
+		firsts := []struct {
+			name string
+			a    e1.Attempt
+		}{}
+		if hist != "H1T" {
+			continue // one history is enough for the second-use scenarios
+		}
+		for _, tr := range []e1.Trigger{{Kind: "released", N: 2}, {Kind: "consumed", N: n - 1}, {Kind: "handler_exit", N: 0}} {
+			tr := tr
+			a := att(simmaster.Plan{At: -1, Final: "silent"})
+			a.Cancel = &tr
+			firsts = append(firsts, struct {
+				name string
+				a    e1.Attempt
+			}{fmt.Sprintf("cancel-%s@%d", tr.Kind, tr.N), a})
+		}
+		firsts = append(firsts, struct {
+			name string
+			a    e1.Attempt
+		}{"eof", att(simmaster.Plan{At: -1, Final: "eof"})})
+		for _, f := range firsts {
+			for _, second := range []struct {
+				name string
+				p    simmaster.Plan
+			}{
+				// (the artificial ROTATE and the format description, packets 0 and 1,
+				// are served from every resume position)
+				{"err@1", simmaster.Plan{At: 1, Kind: "err", Err: errSpecs[0], Final: "eof"}},
+				{"fin@1", simmaster.Plan{At: 1, Kind: "fin", Final: "eof"}},
+				{"pre-err_dump", simmaster.Plan{Pre: "err_dump", At: -1, Final: "eof"}},
+				{"eof", simmaster.Plan{At: -1, Final: "eof"}},
+			} {
+				sc := base(fmt.Sprintf("%s/%s/then/%s/%s", hist, pacing, f.name, second.name), hist, pacing)
+				sc.Attempts = []e1.Attempt{f.a, att(second.p)}
+				out = append(out, sc)
+			}
+		}
+	}
+	return out
+}
+
+// setupCancelScenarios: the caller cancels before Stream does anything, right
+// after the transport connection exists, or while the master has stopped
+// talking at one of the four stages of the handshake (before its greeting,
+// after the authentication packet, after the SET query, after the dump
+// request). With retry the cancelled attempt is followed by a clean one.
+func setupCancelScenarios(hist, pacing string, retry bool) []e1.Scenario {
+	var out []e1.Scenario
+	type sp struct{ name, pre, kind string }
+	for _, x := range []sp{
+		{"start", "", "start"}, {"dialed", "", "dialed"},
+		{"stall-greeting", "stall_greeting", "stalled"}, {"stall-auth", "stall_auth", "stalled"},
+		{"stall-query", "stall_query", "stalled"}, {"stall-dump", "stall_dump", "stalled"},
+	} {
+		name := fmt.Sprintf("%s/%s/setup-cancel-%s", hist, pacing, x.name)
+		if retry {
+			name = fmt.Sprintf("%s/%s/retry/setup-cancel-%s", hist, pacing, x.name)
+		}
+		sc := base(name, hist, pacing)
+		a := att(simmaster.Plan{Pre: x.pre, At: -1, Final: "silent"})
+		a.Cancel = &e1.Trigger{Kind: x.kind}
+		sc.Attempts = []e1.Attempt{a}
+		if retry {
+			sc.Attempts = append(sc.Attempts, clean())
+		}
+		out = append(out, sc)
 	}
 	return out
 }
@@ -243,6 +331,8 @@ func retryScenarios(hist string, full bool) []e1.Scenario {
 			a.DialRefuse = true
 			add("pre-dial-refused", a, nil)
 		}
+		// an attempt cancelled while its connection was being set up, then a clean one
+		out = append(out, setupCancelScenarios(hist, pacing, true)...)
 		// two and three consecutive failed attempts: one representative per class
 		reps := func(at int) []e1.Attempt {
 			c := att(simmaster.Plan{At: -1, Final: "silent"})
@@ -374,6 +464,22 @@ func handshakeJobs(thorough bool) []Job {
 			}
 		}
 	}
+	// an empty file name (the master's first binlog) with every boundary of the
+	// first file, as the first position and as the resume position
+	for _, pacing := range []string{"first", "lock"} {
+		for bi, b := range h.Boundaries(0) {
+			sc := base(fmt.Sprintf("H2/%s/start-empty-name:%d", pacing, b), "H2", pacing)
+			sc.StartFile, sc.StartPos, sc.ServerID = "", b, 7
+			sc.Attempts = []e1.Attempt{clean()}
+			jobs = append(jobs, Job{Sc: sc, Bound: bound})
+			if bi%2 == 0 {
+				sc2 := base(fmt.Sprintf("H2/%s/start-empty-name:%d/retry", pacing, b), "H2", pacing)
+				sc2.StartFile, sc2.StartPos, sc2.ServerID = "", b, 7
+				sc2.Attempts = []e1.Attempt{att(simmaster.Plan{At: 6, Kind: "fin", Final: "silent"}), clean()}
+				jobs = append(jobs, Job{Sc: sc2, Bound: bound})
+			}
+		}
+	}
 	// unusual file names (255 bytes, spaces, UTF-8, 1 byte) and offsets around 2^31 and up to 2^32-1
 	h3 := e1.Hist("H3")
 	for fi, f := range h3.Files {
@@ -433,6 +539,20 @@ func aliasJobs(thorough bool) []Job {
 			a.HandlerMode = mode
 			sc.Attempts = []e1.Attempt{a}
 			jobs = append(jobs, Job{Sc: sc, Bound: bound})
+		}
+		for _, mode := range []string{"ok", "scribble"} {
+			// values that share their leading part (same second, other fraction)
+			sc := base(fmt.Sprintf("H11/%s/%s", pacing, mode), "H11", pacing)
+			a := clean()
+			a.HandlerMode = mode
+			sc.Attempts = []e1.Attempt{a}
+			jobs = append(jobs, Job{Sc: sc, Bound: bound})
+		}
+		{
+			// ~100 KB of small events behind kept transactions (default schedule only)
+			sc := base(fmt.Sprintf("H10/%s/ok", pacing), "H10", pacing)
+			sc.Attempts = []e1.Attempt{clean()}
+			jobs = append(jobs, Job{Sc: sc, Bound: 0})
 		}
 		for _, mode := range []string{"ok", "yield"} {
 			sc := base(fmt.Sprintf("H9/%s/%s", pacing, mode), "H9", pacing)
